@@ -756,7 +756,8 @@ Lemma par_round_GI first (dys : list pdyn) st w : GI dys st w ->
     (forall dy, In dy dys' -> d_active F dy = false -> d_un F dy = [] /\ d_unoff F dy = []) /\
     (forall dy, In dy dys' -> d_un F dy = [] -> d_unoff F dy = [] -> d_active F dy = false) /\
     (forall v, nth v st LU <> LU -> nth v st' LU = nth v st LU) /\
-    ((exists v, v < n /\ nth v st LU = LU) -> exists m, m < n /\ nth m st LU = LU /\ nth m st' LU <> LU).
+    ((exists v, v < n /\ nth v st LU = LU) -> exists m, m < n /\ nth m st LU = LU /\ nth m st' LU <> LU) /\
+    (forall v, v < n -> nth v st LU = LU -> nth v st' LU = LU \/ nth v st' LU = LC \/ nth v st' LU = LF).
 Proof.
   intros HG. pose proof HG as [L [LW [HL [HR [HT [HA HU]]]]]].
   unfold par_round.
@@ -850,7 +851,7 @@ Proof.
         assert (E3 : fst (us1F (nth v st2 LU) (nth v w zero)) = LU) by (rewrite <- HF1; exact H).
         destruct C1 as [C1|C1]; congruence.
     - apply label_eqb_neq in E. rewrite (Hstay v E). tauto. }
-  split; [|split; [|split; [|split]]].
+  split; [|split; [|split; [|split; [|split]]]].
   - (* GI *)
     assert (LD : length dl = length bs).
     { apply Forall2_length' in HF2. rewrite combine_length in HF2. lia. }
@@ -935,6 +936,11 @@ Proof.
   - intros Hex. destruct (PR1 Hex) as [m [Hm [HmU HmC]]]. exists m. split; [exact Hm|]. split; [exact HmU|].
     assert (E2 : nth m st2 LU = LNC) by (destruct (V2 m) as [H|[H _]]; congruence).
     pose proof (F1 m Hm HmU) as HF1. rewrite E2 in HF1. unfold us1 in HF1. cbn in HF1. inversion HF1. congruence.
+  - intros v Hv E. pose proof (F1 v Hv E) as HF1.
+    destruct (us1_cases (nth v st2 LU) (nth v w zero) (F3' v E)) as [[C1 [C2 C3]]|[C1 _]].
+    { rewrite C3 in HF1. left. congruence. }
+    { assert (E3 : nth v st3 LU = fst (us1F (nth v st2 LU) (nth v w zero))) by (rewrite <- HF1; reflexivity).
+      destruct C1 as [C1|C1]; rewrite C1 in E3; auto. }
 Qed.
 
 (* ----- the loop ----- *)
@@ -986,7 +992,8 @@ Lemma par_loop_total fuel : forall (dys : list pdyn) st w,
   exists dys' st' w',
     par_loop F zero one ltb R CL fuel bs (dys, st, w) = Some (dys', st', w') /\
     GI dys' st' w' /\ (forall v, v < n -> nth v st' LU <> LU) /\
-    (forall v, nth v st LU <> LU -> nth v st' LU = nth v st LU).
+    (forall v, nth v st LU <> LU -> nth v st' LU = nth v st LU) /\
+    (forall v, v < n -> nth v st LU = LU -> nth v st' LU = LC \/ nth v st' LU = LF).
 Proof.
   induction fuel as [|f IH]; intros dys st w HG HF Hc.
   - (* no unassigned vertex: nobody is active *)
@@ -1010,13 +1017,14 @@ Proof.
         destruct (d_unoff F dy) as [|u l] eqn:Eu; [reflexivity|exfalso].
         destruct (proj1 (Huo u) (or_introl eq_refl)) as [H1 H2].
         apply (Hno u); [|exact H2]. apply (colmap_lt _ u H1). }
-    exists dys, st, w. simpl. rewrite Hex. auto.
+    exists dys, st, w. simpl. rewrite Hex. split; [reflexivity|]. split; [exact HG|]. split; [exact Hno|]. split; [auto|].
+    intros v Hv HU. exfalso. apply (Hno v Hv HU).
   - cbn [par_loop fst]. destruct (existsb (d_active F) dys) eqn:Hex.
-    + destruct (par_round_GI false dys st w HG) as [dys' [st' [w' [Hr [HG' [_ [HF' [Hstay Hprog]]]]]]]].
+    + destruct (par_round_GI false dys st w HG) as [dys' [st' [w' [Hr [HG' [_ [HF' [Hstay [Hprog Hlab]]]]]]]]].
       rewrite Hr.
       destruct (Nat.eq_dec (cntU st) 0) as [Z|Z].
       * (* nobody unassigned: the round changes nothing that matters; recurse with the same bound *)
-        destruct (IH dys' st' w' HG' HF') as [d2 [s2 [w2 [E2 [G2 [T2 S2]]]]]].
+        destruct (IH dys' st' w' HG' HF') as [d2 [s2 [w2 [E2 [G2 [T2 [S2 Lb2]]]]]]].
         { assert (cntU st' <= cntU st); [|lia]. unfold cntU.
           assert (Hle : forall (p p' : nat -> bool) l, (forall x, p' x = true -> p x = true) ->
                         length (filter p' l) <= length (filter p l)).
@@ -1025,17 +1033,23 @@ Proof.
           apply Hle. intros v H. unfold is_U in *. apply label_eqb_eq in H.
           destruct (label_eqb (nth v st LU) LU) eqn:E; [reflexivity|].
           apply label_eqb_neq in E. rewrite (Hstay v E) in H. contradiction. }
-        exists d2, s2, w2. split; [exact E2|]. split; [exact G2|]. split; [exact T2|].
-        intros v Hv. rewrite S2; [apply Hstay; exact Hv|rewrite (Hstay v Hv); exact Hv].
+        exists d2, s2, w2. split; [exact E2|]. split; [exact G2|]. split; [exact T2|]. split.
+        { intros v Hv. rewrite S2; [apply Hstay; exact Hv|rewrite (Hstay v Hv); exact Hv]. }
+        { intros v Hv HUv. destruct (Hlab v Hv HUv) as [H|H]; [apply Lb2; assumption|].
+          assert (HnU : nth v st' LU <> LU) by (destruct H as [H|H]; rewrite H; discriminate).
+          rewrite (S2 v HnU). exact H. }
       * assert (Hex2 : exists v, v < n /\ nth v st LU = LU).
         { unfold cntU in Z. destruct (filter (fun v => is_U (nth v st LU)) (seq 0 n)) as [|v l] eqn:E; [simpl in Z; lia|].
           assert (Hi : In v (filter (fun v => is_U (nth v st LU)) (seq 0 n))) by (rewrite E; left; reflexivity).
           apply filter_In in Hi. destruct Hi as [H1 H2]. apply in_seq in H1. exists v. split; [lia|].
           apply label_eqb_eq. exact H2. }
         pose proof (cntU_decrease st st' Hstay (Hprog Hex2)) as Hdec.
-        destruct (IH dys' st' w' HG' HF') as [d2 [s2 [w2 [E2 [G2 [T2 S2]]]]]]; [lia|].
-        exists d2, s2, w2. split; [exact E2|]. split; [exact G2|]. split; [exact T2|].
-        intros v Hv. rewrite S2; [apply Hstay; exact Hv|rewrite (Hstay v Hv); exact Hv].
+        destruct (IH dys' st' w' HG' HF') as [d2 [s2 [w2 [E2 [G2 [T2 [S2 Lb2]]]]]]]; [lia|].
+        exists d2, s2, w2. split; [exact E2|]. split; [exact G2|]. split; [exact T2|]. split.
+        { intros v Hv. rewrite S2; [apply Hstay; exact Hv|rewrite (Hstay v Hv); exact Hv]. }
+        { intros v Hv HUv. destruct (Hlab v Hv HUv) as [H|H]; [apply Lb2; assumption|].
+          assert (HnU : nth v st' LU <> LU) by (destruct H as [H|H]; rewrite H; discriminate).
+          rewrite (S2 v HnU). exact H. }
     + assert (Hno : forall v, v < n -> nth v st LU <> LU).
       { intros v Hv HU. destruct HG as [_ [_ [HL [HR _]]]]. destruct (Hcover v Hv) as [b [Hb Hin]].
         destruct (combine_In_l dys b HL Hb) as [dy Hbd]. destruct (HR b dy Hbd) as [_ [_ [_ [Hun [_ [_ [_ Hact]]]]]]].
@@ -1044,7 +1058,8 @@ Proof.
           assert (existsb (d_active F) dys = true); [|congruence]. apply existsb_exists. exists dy. split; [|exact E].
           apply in_combine_r in Hbd. exact Hbd. }
         destruct (Hact Ha) as [E1 _]. assert (Hi : In v (d_un F dy)) by (apply Hun; auto). rewrite E1 in Hi. destruct Hi. }
-      exists dys, st, w. auto.
+      exists dys, st, w. split; [reflexivity|]. split; [exact HG|]. split; [exact Hno|]. split; [auto|].
+      intros v Hv HUv. exfalso. apply (Hno v Hv HUv).
 Qed.
 
 (* ----- the state on entry to the loop (pmis_main_loop before the while) ----- *)
@@ -1053,11 +1068,7 @@ Definition stc (st : list label) (w : list F) (i : nat) : label :=
   if is_U (nth i st LU) && ltb (nth i w zero) one then LF else nth i st LU.
 Definition wc (st : list label) (w : list F) (i : nat) : F := if keepc st w i then nth i w zero else zero.
 
-Definition cls_step (q : list nat * list label * list F) (i : nat) :=
-  let '(un, st, w) := q in
-  if is_U (nth i st LU) && ltb (nth i w zero) one then (un, upd st i LF, upd w i zero)
-  else if is_U (nth i st LU) then (un ++ [i], st, w)
-  else (un, st, upd w i zero).
+Notation cls_step := (cls_step F zero one ltb).
 
 Lemma cls_fold l : forall un st w,
   NoDup l -> (forall i, In i l -> i < length st) -> length st = length w ->
@@ -1071,7 +1082,7 @@ Proof.
   - exists st, w. simpl. rewrite app_nil_r. repeat split; auto; tauto.
   - inversion ND as [|x' l' Hx Hl]; subst.
     assert (Hxs : x < length st) by (apply Hlt; left; reflexivity). assert (Hxw : x < length w) by lia.
-    cbn [fold_left]. unfold cls_step at 2.
+    cbn [fold_left]. unfold SplitPar.cls_step at 2.
     assert (Frame : forall st1 w1, (forall u, u <> x -> nth u st1 LU = nth u st LU /\ nth u w1 zero = nth u w zero) ->
               filter (keepc st1 w1) l = filter (keepc st w) l /\
               forall i, In i l -> stc st1 w1 i = stc st w i /\ wc st1 w1 i = wc st w i).
@@ -1101,7 +1112,7 @@ Proof.
       split; [cbn [filter]; rewrite Hk, <- app_assoc; reflexivity|]. split; [exact L1|]. split; [exact L2|]. split.
       * intros v Hv. apply Fr. intros H; apply Hv; right; exact H.
       * intros i [Ei|Hi]; [|apply Pr; exact Hi]. subst i. destruct (Fr x Hx) as [A B]. rewrite A, B.
-        unfold stc, wc. rewrite E1, Hk. auto.
+        unfold stc, wc. rewrite E2, E1, Hk. auto.
     + destruct (IH un st (upd w x zero) Hl) as [st' [w' [Hf [L1 [L2 [Fr Pr]]]]]].
       { intros i Hi. apply Hlt. right; exact Hi. } { rewrite upd_length. exact HL. }
       destruct (Frame st (upd w x zero)) as [FF FP].
@@ -1113,14 +1124,11 @@ Proof.
         rewrite A, B, !nth_upd_other by (intros ->; apply Hv; left; reflexivity). auto.
       * intros i [Ei|Hi].
         { subst i. destruct (Fr x Hx) as [A B]. rewrite A, B, nth_upd_same by assumption.
-          unfold stc, wc. rewrite E1, Hk. auto. }
+          unfold stc, wc. rewrite E2, Hk. auto. }
         { destruct (Pr i Hi) as [A B]. destruct (FP i Hi) as [C D]. rewrite A, B, C, D. auto. }
 Qed.
 
-Definition cls_rank (a : list (list nat) * list label * list F) (b : nat * nat) :=
-  let '(uns, st, w) := a in
-  let '(un, st', w') := fold_left cls_step (seq (fst b) (snd b)) ([], st, w) in
-  (uns ++ [un], st', w').
+Notation cls_rank := (cls_rank F zero one ltb).
 
 Lemma cls_ranks bl : forall lo accu st w,
   chain lo bl -> (forall b, In b bl -> fst b + snd b <= length st) -> length st = length w ->
@@ -1132,8 +1140,9 @@ Lemma cls_ranks bl : forall lo accu st w,
     (forall v, ~ (exists b, In b bl /\ in_block b v = true) -> nth v st' LU = nth v st LU /\ nth v w' zero = nth v w zero).
 Proof.
   induction bl as [|b bl IH]; intros lo accu st w Hch Hr HL.
-  - exists st, w. simpl. rewrite app_nil_r. repeat split; auto. intros v [b [[] _]].
-  - destruct Hch as [Elo Hch]. cbn [fold_left]. unfold cls_rank at 2.
+  - exists st, w. simpl. rewrite app_nil_r. split; [reflexivity|]. split; [reflexivity|]. split; [reflexivity|].
+    split; [intros v [b [[] _]]|auto].
+  - destruct Hch as [Elo Hch]. cbn [fold_left]. unfold SplitPar.cls_rank at 2.
     destruct (cls_fold (seq (fst b) (snd b)) [] st w (seq_NoDup _ _)) as [st1 [w1 [Hf [L1 [L2 [Fr Pr]]]]]].
     { intros i Hi. apply in_seq in Hi. specialize (Hr b (or_introl eq_refl)). lia. } { exact HL. }
     rewrite Hf. cbn [app].
@@ -1177,3 +1186,198 @@ Proof. induction cm as [|c cm IH]; intros v0; simpl; [reflexivity|]. rewrite IH.
 
 Lemma combine_map_self {A B} (f : A -> B) l : combine l (map f l) = map (fun a => (a, f a)) l.
 Proof. induction l as [|a l IH]; simpl; [reflexivity|]. rewrite IH. reflexivity. Qed.
+
+Lemma initial_weights_length keys : length (initial_weights F zero one add R CL bs keys) = length keys.
+Proof.
+  unfold initial_weights.
+  apply (fold_left_inv (fun w => length w = length keys)).
+  - apply (fold_left_inv (fun w => length w = length keys)); [reflexivity|].
+    intros w b _ Hw. apply (fold_left_inv (fun w => length w = length keys)); [exact Hw|].
+    intros w1 u _ Hw1. apply (fold_left_inv (fun w => length w = length keys)); [exact Hw1|].
+    intros w2 idx _ Hw2. rewrite upd_length. exact Hw2.
+  - intros w b _ Hw. apply (fold_left_inv (fun w => length w = length keys)); [exact Hw|].
+    intros w1 g _ Hw1. rewrite upd_length. exact Hw1.
+Qed.
+
+Lemma relX_upd X st v : nth v st LU = LU -> relX X st (upd st v X).
+Proof.
+  intros H. split; [apply upd_length|]. intros u. rewrite nth_upd.
+  destruct ((v =? u) && (v <? length st)) eqn:E; [|auto].
+  apply andb_true_iff in E. destruct E as [E _]. apply Nat.eqb_eq in E. subst u. auto.
+Qed.
+
+Lemma premark_rel st0 : relX LF st0 (premark CL bs st0).
+Proof.
+  unfold premark. apply (fold_left_inv (fun s => relX LF st0 s)); [apply relX_refl|].
+  intros s b _ Hs. apply (fold_left_inv (fun s => relX LF st0 s)); [exact Hs|].
+  intros s1 i _ Hs1. destruct (label_eqb (nth i s1 LU) LC); [|exact Hs1].
+  apply (fold_left_inv (fun s => relX LF st0 s)); [exact Hs1|].
+  intros s2 row _ Hs2. destruct (is_U (nth row s2 LU)) eqn:E; [|exact Hs2].
+  eapply relX_trans; [discriminate|exact Hs2|]. apply relX_upd. apply label_eqb_eq. exact E.
+Qed.
+
+Lemma start_GI st0 keys :
+  length st0 = n -> length keys = n ->
+  (forall v, v < n -> nth v st0 LU = LU \/ nth v st0 LU = LC \/ nth v st0 LU = LF \/ nth v st0 LU = LN) ->
+  exists dys st2 w2,
+    par_pmis_start F zero one add ltb R CL bs st0 keys = (dys, st2, w2) /\ GI dys st2 w2 /\
+    (forall v, nth v st0 LU <> LU -> nth v st2 LU = nth v st0 LU) /\
+    (forall v, v < n -> nth v st0 LU = LU -> nth v st2 LU = LU \/ nth v st2 LU = LF).
+Proof.
+  intros L0 Lk HT0. unfold par_pmis_start.
+  set (w0 := initial_weights F zero one add R CL bs keys).
+  assert (LW0 : length w0 = n) by (unfold w0; rewrite initial_weights_length; exact Lk).
+  set (st1 := premark CL bs st0). pose proof (premark_rel st0) as [L1 V1]. fold st1 in L1, V1.
+  destruct (cls_ranks bs 0 [] st1 w0 Hchain) as [st2 [w2 [Hf [L2 [LW2 [P Q]]]]]].
+  { intros b Hb. rewrite L1, L0. apply Hrange. exact Hb. } { congruence. }
+  rewrite Hf. cbn [app].
+  set (fu := fun b => filter (keepc st1 w0) (seq (fst b) (snd b))).
+  set (G := fun b => start_dyn F zero R st2 w2 (b, fu b)).
+  assert (Edys : map (start_dyn F zero R st2 w2) (combine bs (map fu bs)) = map G bs).
+  { rewrite combine_map_self, map_map. reflexivity. }
+  exists (map G bs), st2, w2. split; [rewrite Edys; reflexivity|].
+  assert (Pv : forall v, v < n -> nth v st2 LU = stc st1 w0 v /\ nth v w2 zero = wc st1 w0 v).
+  { intros v Hv. apply P. apply Hcover. exact Hv. }
+  assert (T1 : forall v, v < n -> nth v st1 LU = LU \/ nth v st1 LU = LC \/ nth v st1 LU = LF \/ nth v st1 LU = LN).
+  { intros v Hv. destruct (V1 v) as [H|[_ H]]; [rewrite H; apply HT0; exact Hv|auto]. }
+  assert (KU : forall v, v < n -> (nth v st2 LU = LU <-> keepc st1 w0 v = true)).
+  { intros v Hv. rewrite (proj1 (Pv v Hv)). unfold stc, keepc, is_U.
+    destruct (label_eqb (nth v st1 LU) LU) eqn:E; cbn [andb].
+    - apply label_eqb_eq in E. destruct (ltb (nth v w0 zero) one); cbn [negb]; [split; discriminate|rewrite E; tauto].
+    - apply label_eqb_neq in E. split; [contradiction|discriminate]. }
+  split; [|split].
+  - unfold GI. split; [congruence|]. split; [congruence|]. split; [apply map_length|]. split; [|split; [|split]].
+    + intros b dy Hbd. rewrite combine_map_self in Hbd. apply in_map_iff in Hbd. destruct Hbd as [b' [E Hb]].
+      inversion E; subst b' dy. clear E. unfold G, start_dyn. cbn [fst snd].
+      set (view := fold_left (fun v g => upd v g (nth g st2 LU)) (colmap b) (repeat LU n)).
+      set (offw := fold_left (fun v g => upd v g (nth g w2 zero)) (colmap b) (repeat zero n)).
+      assert (Lview : length view = n) by (unfold view; rewrite set_fold_length; apply repeat_length).
+      assert (Loffw : length offw = n) by (unfold offw; rewrite set_fold_length; apply repeat_length).
+      assert (Hview : forall g, In g (colmap b) -> nth g view LU = nth g st2 LU).
+      { intros g Hg. unfold view. rewrite set_fold_nth, repeat_length.
+        assert (E1 : existsb (Nat.eqb g) (colmap b) = true) by (apply existsb_exists; exists g; split; [exact Hg|apply Nat.eqb_refl]).
+        assert (E2 : g <? n = true) by (apply Nat.ltb_lt; apply (colmap_lt b); exact Hg). rewrite E1, E2. reflexivity. }
+      assert (Hoffw : forall g, In g (colmap b) -> nth g offw zero = nth g w2 zero).
+      { intros g Hg. unfold offw. rewrite set_fold_nth, repeat_length.
+        assert (E1 : existsb (Nat.eqb g) (colmap b) = true) by (apply existsb_exists; exists g; split; [exact Hg|apply Nat.eqb_refl]).
+        assert (E2 : g <? n = true) by (apply Nat.ltb_lt; apply (colmap_lt b); exact Hg). rewrite E1, E2. reflexivity. }
+      unfold RI. cbn [d_view d_offw d_un d_unoff d_active]. split; [exact Lview|]. split; [exact Loffw|].
+      split; [unfold fu; apply NoDup_filter, seq_NoDup|]. split.
+      { intros v. unfold fu. rewrite filter_In, <- in_block_seq. split.
+        - intros [H1 H2]. split; [exact H1|]. apply KU; [apply (in_block_lt b v Hb H1)|exact H2].
+        - intros [H1 H2]. split; [exact H1|]. apply KU; [apply (in_block_lt b v Hb H1)|exact H2]. }
+      split; [apply NoDup_filter, colmap_NoDup|]. split.
+      { intros g. rewrite filter_In. unfold is_U. split.
+        - intros [H1 H2]. split; [exact H1|]. rewrite <- (Hview g H1). apply label_eqb_eq. exact H2.
+        - intros [H1 H2]. split; [exact H1|]. rewrite (Hview g H1), H2. reflexivity. }
+      split; [|discriminate]. intros g Hg. split; [apply Hview|apply Hoffw]; exact Hg.
+    + intros v Hv. rewrite (proj1 (Pv v Hv)). unfold stc. destruct (is_U (nth v st1 LU) && ltb (nth v w0 zero) one); [auto|apply T1; exact Hv].
+    + intros v Hv HnU. rewrite (proj2 (Pv v Hv)). unfold wc.
+      destruct (keepc st1 w0 v) eqn:E; [|exact lt01]. exfalso. apply HnU. apply KU; assumption.
+    + intros u Hu HUu. apply KU in HUu; [|exact Hu]. rewrite (proj2 (Pv u Hu)). unfold wc. rewrite HUu.
+      unfold keepc in HUu. apply andb_true_iff in HUu. destruct HUu as [_ H]. apply negb_true_iff in H. exact H.
+  - intros v Hv.
+    assert (E1 : nth v st1 LU = nth v st0 LU) by (destruct (V1 v) as [H|[H _]]; [exact H|contradiction]).
+    destruct (Nat.lt_ge_cases v n) as [Hlt|Hge].
+    + rewrite (proj1 (Pv v Hlt)). unfold stc, is_U. rewrite E1.
+      assert (E2 : label_eqb (nth v st0 LU) LU = false) by (apply label_eqb_neq; exact Hv). rewrite E2. reflexivity.
+    + rewrite !nth_overflow in * by lia. congruence.
+  - intros v Hv HUv. rewrite (proj1 (Pv v Hv)). unfold stc.
+    destruct (is_U (nth v st1 LU) && ltb (nth v w0 zero) one); [auto|].
+    destruct (V1 v) as [H|[_ H]]; [left; congruence|auto].
+Qed.
+
+Lemma map_combine_ext {A B C} (f : A * B -> C) (g : A -> C) (l : list A) : forall (dys : list B),
+  length dys = length l -> (forall a d, In (a, d) (combine l dys) -> f (a, d) = g a) ->
+  map f (combine l dys) = map g l.
+Proof.
+  induction l as [|a l IH]; intros [|d dys] HL H; simpl in *; try reflexivity; try discriminate.
+  f_equal; [apply H; left; reflexivity|]. apply IH; [lia|]. intros a' d' Hin. apply H. right; exact Hin.
+Qed.
+
+(* Distributed PMIS on ANY contiguous partition: no exchange ever disagrees, the loop ends within n further
+   passes on every rank, every point that entered unassigned is coarse or fine, every other point keeps its
+   label, and every rank's final view of its off-process columns equals the owners' labels. *)
+Theorem par_pmis_agreement st0 keys :
+  length st0 = n -> length keys = n ->
+  (forall v, v < n -> nth v st0 LU = LU \/ nth v st0 LU = LC \/ nth v st0 LU = LF \/ nth v st0 LU = LN) ->
+  exists st,
+    par_pmis_main F zero one add ltb R CL n bs st0 keys =
+      Some (map (fun b => map (fun g => nth g st LU) (colmap b)) bs, st) /\
+    length st = n /\
+    (forall v, v < n -> nth v st0 LU = LU -> nth v st LU = LC \/ nth v st LU = LF) /\
+    (forall v, nth v st0 LU <> LU -> nth v st LU = nth v st0 LU).
+Proof.
+  intros L0 Lk HT0.
+  destruct (start_GI st0 keys L0 Lk HT0) as [dys [st2 [w2 [Es [HG [S0 Lb0]]]]]].
+  destruct (par_round_GI true dys st2 w2 HG) as [dys1 [st3 [w3 [Er [HG1 [_ [HF1 [S1 [_ Lb1]]]]]]]]].
+  destruct (par_loop_total n dys1 st3 w3 HG1 HF1) as [dys2 [st4 [w4 [El [HG2 [T2 [S2 Lb2]]]]]]].
+  { unfold cntU. pose proof (filter_length_le (fun v => is_U (nth v st3 LU)) (seq 0 n)) as H. rewrite seq_length in H. exact H. }
+  exists st4. unfold par_pmis_main. rewrite Es, Er, El.
+  destruct HG2 as [L4 [_ [HL4 [HR4 _]]]]. split; [|split; [exact L4|split]].
+  - f_equal. f_equal. apply map_combine_ext; [exact HL4|]. intros b dy Hbd. cbn [fst snd].
+    destruct (HR4 b dy Hbd) as [_ [_ [_ [_ [_ [_ [Hacc _]]]]]]].
+    apply map_ext_in. intros g Hg. apply Hacc. exact Hg.
+  - intros v Hv HU0. destruct (Lb0 v Hv HU0) as [H2|H2].
+    + destruct (Lb1 v Hv H2) as [H3|H3].
+      * apply Lb2; assumption.
+      * assert (HnU : nth v st3 LU <> LU) by (destruct H3 as [H3|H3]; rewrite H3; discriminate).
+        rewrite (S2 v HnU). exact H3.
+    + assert (HnU2 : nth v st2 LU <> LU) by (rewrite H2; discriminate).
+      assert (E3 : nth v st3 LU = LF) by (rewrite (S1 v HnU2); exact H2).
+      assert (HnU3 : nth v st3 LU <> LU) by (rewrite E3; discriminate).
+      rewrite (S2 v HnU3). auto.
+  - intros v Hv. assert (E2 : nth v st2 LU = nth v st0 LU) by (apply S0; exact Hv).
+    assert (HnU2 : nth v st2 LU <> LU) by congruence.
+    assert (E3 : nth v st3 LU = nth v st2 LU) by (apply S1; exact HnU2).
+    assert (HnU3 : nth v st3 LU <> LU) by congruence.
+    rewrite (S2 v HnU3). congruence.
+Qed.
+End Agreement.
+
+(* ---------- the entry point on a strength pattern ---------- *)
+Lemma initial_states_props S bs :
+  length (initial_states S bs) = length S /\
+  forall v, v < length S -> nth v (initial_states S bs) LU = LU \/ nth v (initial_states S bs) LU = LN.
+Proof.
+  unfold initial_states. split; [rewrite map_length, indexed_length; reflexivity|].
+  intros v Hv. rewrite (nth_map_indexed _ S v LU []) by exact Hv.
+  destruct ((1 <? _) || (0 <? _)); auto.
+Qed.
+
+Section EntryPar.
+Variable F : Type.
+Variables (zero one : F) (add : F -> F -> F).
+Variable ltb : F -> F -> bool.
+Hypothesis ltb_trans : forall a b c, ltb a b = true -> ltb b c = true -> ltb a c = true.
+Hypothesis ltb_irrefl : forall a, ltb a a = false.
+Hypothesis lt01 : ltb zero one = true.
+
+Theorem par_split_pmis_agreement (S : graph) (part : list nat) (keys : list F) :
+  graph_wfb S = true -> list_sum part = length S -> length keys = length S ->
+  let bs := block_starts 0 part in
+  let st0 := initial_states S bs in
+  exists st,
+    par_split_pmis zero one add ltb S part keys (length S) =
+      Some (map (fun b => map (fun g => nth g st LU) (colmap (off_rows S) b)) bs, st) /\
+    length st = length S /\
+    forall v, v < length S ->
+      (nth v st0 LU = LU /\ (nth v st LU = LC \/ nth v st LU = LF)) \/ (nth v st0 LU = LN /\ nth v st LU = LN).
+Proof.
+  intros Hwf Hsum Hk bs st0. unfold par_split_pmis. fold bs. fold st0.
+  set (R := off_rows S). assert (LR : length R = length S) by apply off_rows_length.
+  destruct (initial_states_props S bs) as [L0 T0]. fold st0 in L0, T0.
+  destruct (par_pmis_agreement F zero one add ltb ltb_trans ltb_irrefl lt01 R (col_lists R)
+              (off_rows_wf S Hwf) bs (chain_block_starts part 0)) with (st0 := st0) (keys := keys)
+    as [st [E [L [A B]]]].
+  - intros v Hv. apply block_starts_cover. simpl. rewrite Hsum, <- LR. lia.
+  - intros b Hb. pose proof (block_starts_range part 0 b Hb). rewrite LR. simpl in *. lia.
+  - congruence.
+  - congruence.
+  - intros v Hv. rewrite LR in Hv. destruct (T0 v Hv) as [H|H]; auto.
+  - exists st. rewrite LR in *. split; [exact E|]. split; [exact L|]. intros v Hv.
+    destruct (T0 v Hv) as [H|H].
+    + left. split; [exact H|]. apply A; assumption.
+    + right. split; [exact H|]. rewrite B; [exact H|]. rewrite H. discriminate.
+Qed.
+End EntryPar.
